@@ -9,7 +9,7 @@ The number of `next()` calls per consumer is bounded like a MIR loop (loop_k + 1
 import re
 import fdi as F
 
-ADAPTORS = ('map', 'filter', 'filter_map', 'copied', 'cloned', 'inspect')
+ADAPTORS = ('map', 'filter', 'filter_map', 'copied', 'cloned', 'inspect', 'take_while', 'map_while')
 CONSUMERS = ('find', 'find_map', 'any', 'all', 'fold', 'for_each', 'max', 'min', 'position', 'reduce')
 
 ITEM_TY = [
@@ -165,6 +165,16 @@ def iter_next(I, st, itv, n, k_some, k_none, line=None):
                 return apply(I, s, fn, [x], lambda s2, o: fork_variants(
                     I, s2, o, lambda s3, vn, pl: k_some(s3, pl, n2) if vn == 'Some' else iter_next(I, s3, itv, n2, k_some, k_none, line)))
             return iter_next(I, st, inner, n, some, k_none, line)
+        # truncating adaptors: the first element that fails the test ENDS the iteration (the elements behind it are never looked at); the rows
+        # show this as a None that is not the None of the underlying iterator
+        if kind == 'take_while':
+            def some(s, x, n2):
+                return apply(I, s, fn, [F.Ref(s.alloc(x))], lambda s2, b: fork_bool(I, s2, b, lambda s3, bv: k_some(s3, x, n2) if bv else k_none(s3, n2)))
+            return iter_next(I, st, inner, n, some, k_none, line)
+        if kind == 'map_while':
+            def some(s, x, n2):
+                return apply(I, s, fn, [x], lambda s2, o: fork_variants(I, s2, o, lambda s3, vn, pl: k_some(s3, pl, n2) if vn == 'Some' else k_none(s3, n2)))
+            return iter_next(I, st, inner, n, some, k_none, line)
         raise F.Undecided(f"iterator adaptor {kind}")
     if isinstance(itv, F.Unknown):
         raise F.Undecided(f"next() on {itv!r}")
@@ -300,7 +310,7 @@ def m_bool_then(I, st, fr, t, args, name):
 def register(models):
     models[r'^core::bool::<impl bool>::(then|then_some)$'] = m_bool_then
     models[r'^std::iter::Iterator::(' + '|'.join(ADAPTORS) + r')$'] = m_adaptor
-    models[r'^<std::iter::(Map|Filter|FilterMap|Copied|Cloned|Inspect)<.*> as std::iter::Iterator>::next$'] = m_adaptor_next
+    models[r'^<std::iter::(Map|Filter|FilterMap|Copied|Cloned|Inspect|TakeWhile|MapWhile)<.*> as std::iter::Iterator>::next$'] = m_adaptor_next
     models[r'^<I as std::iter::IntoIterator>::into_iter$'] = m_into_iter_identity
     models[r'(^std::iter::Iterator::|as std::iter::Iterator>::)(' + '|'.join(CONSUMERS) + r')$'] = m_consumer
 
